@@ -19,3 +19,5 @@ _reg("C13")
 _reg("C11")
 _reg("C12")
 _reg("C38")
+_reg("C14")
+_reg("C15")
